@@ -43,8 +43,9 @@ MODELLED = ["shl_amount", "shl_amount_zero", "shr_amount", "slice_left", "slice_
 BIG_VALUE = {"shl_amount", "mul_operand", "add_operand", "sub_operand", "neg_operand", "not_operand", "neg_pow_slice",
              "neg_slice", "le_width", "concat_width"}
 # the known-finding classes (KNOWN_FINDINGS.json is matched by class)
-PANIC_CLASS = {"bank_outp_label": "output_position_overflow_unwritten", "bank_outp_res": "output_position_overflow_unwritten",
-               "asm_block_position": "asm_block_position_overflow", "bank_outp_two": "bank_window_end_overflow"}
+# F48 / F61 / F62 (the unchecked position sums) are FIXED in /repo 76fc576: no class suppresses a panic any more; the
+# families that found them (bank_outp_label, bank_outp_res, bank_outp_two, asm_block_position, neartop_5_*) stay as regression
+PANIC_CLASS = {}
 
 
 def is_modelled(fam):
@@ -52,8 +53,6 @@ def is_modelled(fam):
 
 
 def panic_class(fam):
-    if fam.startswith("neartop_5_"):
-        return "asm_block_position_overflow"
     return PANIC_CLASS.get(fam)
 
 
